@@ -136,10 +136,16 @@ func (f *jwtFinalizer) Execute(ctx heimdall.Context, sub *subject.Subject) error
 	}
 
 	if len(jwtToken) == 0 {
-		jwtToken, err = f.generateToken(ctx, sub)
+		var signerHash []byte
+
+		jwtToken, signerHash, err = f.generateToken(ctx, sub)
 		if err != nil {
 			return err
 		}
+
+		// the key store may have been reloaded since the cache key was calculated: the token
+		// is filed under the key of the signer state it has actually been signed with
+		cacheKey = f.cacheKeyFor(signerHash, ctx, sub)
 
 		if len(cacheKey) != 0 && f.ttl > defaultCacheLeeway {
 			if err = cch.Set(ctx.AppContext(), cacheKey, stringx.ToBytes(jwtToken), f.ttl-defaultCacheLeeway); err != nil {
@@ -184,7 +190,7 @@ func (f *jwtFinalizer) ID() string { return f.id }
 
 func (f *jwtFinalizer) ContinueOnError() bool { return false }
 
-func (f *jwtFinalizer) generateToken(ctx heimdall.Context, sub *subject.Subject) (string, error) {
+func (f *jwtFinalizer) generateToken(ctx heimdall.Context, sub *subject.Subject) (string, []byte, error) {
 	logger := zerolog.Ctx(ctx.AppContext())
 	logger.Debug().Msg("Generating new JWT")
 
@@ -196,7 +202,7 @@ func (f *jwtFinalizer) generateToken(ctx heimdall.Context, sub *subject.Subject)
 			"Outputs": ctx.Outputs(),
 		})
 		if err != nil {
-			return "", errorchain.
+			return "", nil, errorchain.
 				NewWithMessage(heimdall.ErrInternal, "failed to render claims").
 				WithErrorContext(f).
 				CausedBy(err)
@@ -205,32 +211,36 @@ func (f *jwtFinalizer) generateToken(ctx heimdall.Context, sub *subject.Subject)
 		logger.Debug().Str("_value", vals).Msg("Rendered template")
 
 		if err = json.Unmarshal(stringx.ToBytes(vals), &claims); err != nil {
-			return "", errorchain.
+			return "", nil, errorchain.
 				NewWithMessage(heimdall.ErrInternal, "failed to unmarshal claims rendered by template").
 				WithErrorContext(f).
 				CausedBy(err)
 		}
 	}
 
-	token, err := f.signer.Sign(sub.ID, f.ttl, claims)
+	token, signerHash, err := f.signer.signWithHash(sub.ID, f.ttl, claims)
 	if err != nil {
-		return "", errorchain.
+		return "", nil, errorchain.
 			NewWithMessage(heimdall.ErrInternal, "failed to sign token").
 			WithErrorContext(f).
 			CausedBy(err)
 	}
 
-	return token, nil
+	return token, signerHash, nil
 }
 
 func (f *jwtFinalizer) calculateCacheKey(ctx heimdall.Context, sub *subject.Subject) string {
+	return f.cacheKeyFor(f.signer.Hash(), ctx, sub)
+}
+
+func (f *jwtFinalizer) cacheKeyFor(signerHash []byte, ctx heimdall.Context, sub *subject.Subject) string {
 	const int64BytesCount = 8
 
 	ttlBytes := make([]byte, int64BytesCount)
 	binary.LittleEndian.PutUint64(ttlBytes, uint64(f.ttl))
 
 	hash := sha256.New()
-	hash.Write(f.signer.Hash())
+	hash.Write(signerHash)
 	hash.Write(x.IfThenElseExec(f.claims != nil,
 		func() []byte { return f.claims.Hash() },
 		func() []byte { return []byte{} }))
